@@ -102,6 +102,27 @@ def conclude(job, spec, a, t0):
             job.verus_rejected_kani_ok[pid] = why
         else:
             job.verus_only_rejected[pid] = why
+    # A program that only Verus decides and whose extracted text the front end now rejects has lost obligations that
+    # were discharged on the unchanged tree.  That alone is undecided; it is a violation when, in addition, the native
+    # replay shows the really compiled derive disagreeing with the oracle on a concrete input (and that oracle was
+    # checked against the unchanged tree when the baseline was recorded).
+    base_path0 = os.path.join(HERE, "baseline", "%s.%s.json" % (prop, job.tier))
+    base0 = json.load(open(base_path0)) if os.path.exists(base_path0) else {}
+    for pid, why in list(job.verus_only_rejected.items()):
+        Pc = job.fam.programs.get(pid)
+        lost = sorted(n for n, e in base0.get("obligations", {}).items() if e == "verus" and n.split("/")[1] == pid)
+        if Pc is None or not lost or pid not in base0.get("native_ok", []) or not Pc.tags.get("replay") or kani_by_pid.get(pid):
+            continue
+        if SEARCH_BUDGET[0] <= 0:
+            continue
+        r = {"status": "failed", "engine": "verus", "pid": pid, "program": Pc.note,
+             "contract": "discharged on the unchanged tree (committed baseline)",
+             "detail": "this obligation was discharged on the unchanged tree; the extracted text is now outside the verifier's reach: " + runlib._short(why, 600)}
+        r["replay_path"] = make_replay(job, lost[0], r)
+        if r.get("replayed"):
+            job.results[lost[0]] = r
+            violations.append((lost[0], r))
+            del job.verus_only_rejected[pid]
     for pid, why in list(job.fam.dropped.items()) + list(job.verus_only_rejected.items()):
         undecided.append(("%s/%s" % (prop, pid), {"status": "undecided", "detail": why, "engine": "-", "pid": pid}))
     if job.verus_rejected_kani_ok:
@@ -130,7 +151,8 @@ def conclude(job, spec, a, t0):
     names = sorted(job.results)
     if a.rebaseline:
         os.makedirs(os.path.dirname(base_path), exist_ok=True)
-        json.dump({"property": prop, "tier": job.tier, "obligations": {n: job.results[n]["engine"] for n in names}},
+        json.dump({"property": prop, "tier": job.tier, "obligations": {n: job.results[n]["engine"] for n in names},
+                   "native_ok": native_selfcheck(job, kani_by_pid)},
                   open(base_path, "w"), indent=0, sort_keys=True)
     base_note = None
     if os.path.exists(base_path) and not a.only and job.seed == 0:
@@ -169,6 +191,24 @@ def conclude(job, spec, a, t0):
                   % (prop, job.tier, n_obl, sum(1 for r in job.results.values() if r["status"] == "proved"),
                      len(violations), len(undecided), len(known_hit), n_canary_fail, len(canary_groups), time.time() - t0))
     return rc
+
+
+def native_selfcheck(job, kani_by_pid):
+    """run at --rebaseline (unchanged tree, everything proved): for every program that only Verus decides and that
+    has a native replay, the native oracle must agree with the really compiled derive on a few hundred inputs.
+    Only such programs may later turn a lost Verus obligation into a violation through a native mismatch."""
+    ok = []
+    for pid, P in job.fam.programs.items():
+        if P.canary_of is not None or not P.tags.get("replay") or pid in job.fam.dropped or kani_by_pid.get(pid):
+            continue
+        rec, r = {}, {}
+        try:
+            _native(job, P, ["search", "400", "11"], rec, r, "self-check")
+        except Exception:
+            continue
+        if not r.get("replayed") and not rec.get("replay_error"):
+            ok.append(pid)
+    return sorted(ok)
 
 
 # ---------------------------------------------------------------------------------
